@@ -30,7 +30,7 @@ from tools.corr.C16_harness import JUNK, hash_mode
 from tools.lib import common
 
 
-CALL_CAP_S = 60
+CALL_CAP_S = 30
 
 
 class Stuck(BaseException):
